@@ -419,11 +419,9 @@ func (c *Ctx) helperOf(fn *ssa.Function, allowed fnSet, depth int) *types.Func {
 		if caller == fn {
 			continue
 		}
-		h := c.helperOf(caller, allowed, depth+1)
-		if h == nil {
-			return nil
-		}
-		host = h
+		// only direct callers count: following the call chain further up would accept any function that is
+		// eventually reached from a broad allowed writer such as the run loop
+		return nil
 	}
 	return host
 }
